@@ -708,3 +708,45 @@ Proof.
   destruct (fold_left schema_step _ (s0, false)) as [e c]. inversion L as [[L1 L2]]. cbn [snd].
   split; [reflexivity|]. destruct (existsb is_conflict es); reflexivity.
 Qed.
+
+(** * Schema URL of a triple: for which URLs the grouping does not matter *)
+Definition schema2 (x y : bytes) : bytes := fst (schema_step (x, false) y).
+
+Lemma merge_oschema a b : oschema (fst (merge a b)) = schema2 (oschema a) (oschema b).
+Proof. unfold schema2. now rewrite <- merge_schema_step. Qed.
+
+Lemma schema2_nil_l y : schema2 [] y = y.
+Proof. reflexivity. Qed.
+Lemma schema2_nil_r x : schema2 x [] = x.
+Proof. destruct x; reflexivity. Qed.
+Lemma schema2_ne x y : x <> [] -> y <> [] -> schema2 x y = if bytes_eqb x y then x else [].
+Proof. intros Hx Hy. destruct x; [congruence|]. destruct y; [congruence|]. unfold schema2, schema_step. cbn [C19.Spec.is_empty]. now destruct (bytes_eqb _ _). Qed.
+
+Lemma schema2_assoc_iff x y z :
+  schema2 (schema2 x y) z = schema2 x (schema2 y z) <-> schema_assoc_cond x y z = true.
+Proof.
+  unfold schema_assoc_cond.
+  destruct (C19.Spec.is_empty x) eqn:Ex; [apply spec_is_empty in Ex; subst; cbn [orb]; rewrite !schema2_nil_l; tauto|].
+  destruct (C19.Spec.is_empty y) eqn:Ey; [apply spec_is_empty in Ey; subst; cbn [orb]; rewrite schema2_nil_l, schema2_nil_r; tauto|].
+  destruct (C19.Spec.is_empty z) eqn:Ez; [apply spec_is_empty in Ez; subst; cbn [orb]; rewrite !schema2_nil_r; tauto|].
+  cbn [orb].
+  assert (Nx : x <> []) by (intro H; subst; discriminate).
+  assert (Ny : y <> []) by (intro H; subst; discriminate).
+  assert (Nz : z <> []) by (intro H; subst; discriminate).
+  rewrite (schema2_ne x y Nx Ny), (schema2_ne y z Ny Nz).
+  destruct (bytes_eqb x y) eqn:Exy, (bytes_eqb y z) eqn:Eyz.
+  - apply bytes_eqb_eq in Exy, Eyz. subst. rewrite (schema2_ne z z Nz Nz), bytes_eqb_refl. tauto.
+  - apply bytes_eqb_eq in Exy. subst y. rewrite (schema2_ne x z Nx Nz), Eyz, schema2_nil_r.
+    split; [intro H; symmetry in H; contradiction | discriminate].
+  - apply bytes_eqb_eq in Eyz. subst z. rewrite schema2_nil_l, (schema2_ne x y Nx Ny), Exy.
+    split; [intro H; contradiction | discriminate].
+  - rewrite schema2_nil_l, schema2_nil_r. destruct (bytes_eqb x z) eqn:Exz.
+    + apply bytes_eqb_eq in Exz. split; [reflexivity | intros _; congruence].
+    + apply bytes_eqb_neq in Exz. split; [intro H; symmetry in H; contradiction | discriminate].
+Qed.
+
+(** Merge is associative on the schema URL exactly for these triples (no well-formedness needed). *)
+Lemma merge_schema_assoc_iff a b c :
+  oschema (fst (merge (fst (merge a b)) c)) = oschema (fst (merge a (fst (merge b c)))) <->
+  schema_assoc_cond (oschema a) (oschema b) (oschema c) = true.
+Proof. rewrite !merge_oschema. apply schema2_assoc_iff. Qed.
